@@ -163,6 +163,33 @@ def w_routes(ctx, rng, i):
     ctx.case(("routes", apo, round(kL), round(np.log10(vdneff), 1), fs), sample=dict(kL=kL, vdneff=vdneff, neff=neff, L=L, N=N, apodisation=apo) if i < 2 else None)
 
 
+def w_axis(ctx, rng, i):
+    """H is a function of optical frequency only: the same grating gives the same response whatever the polarisation layout or
+    content of the input, and on a record twice as long (same fs) the response at every second bin is the response of the short
+    record. (The closed-form comparison takes the detuning vector the solver was given, so a mis-scaled frequency axis would be
+    self-consistent there.)"""
+    fs = float(rng.choice([4e10, 8e10, 1.6e11]))
+    with core.quiet():
+        T.gv(sps=8, fs=fs)
+    n = int(rng.choice([128, 256, 250]))
+    kL = float(rng.uniform(0.5, 5))
+    vdneff = float(10 ** rng.uniform(-4.5, -3))
+    apo = str(rng.choice(["uniform", "gaussian", "rcos", "parabolic"]))
+    F = float(rng.choice([0, 0, 3.0, -5.0]))
+    kw = dict(fc=T.gv.f0, vdneff=vdneff, kL=kL, apodization=apo, F=F)
+    ctx.describe(fs=fs, n=n, kL=kL, vdneff=vdneff, apodisation=apo, F=F)
+    H1 = run_fbg(make_input(rng, n, 1), **kw)[1]
+    H2 = run_fbg(make_input(rng, n, 2), **kw)[1]
+    H1b = run_fbg(T.optical_signal(np.ones(n, complex)), **kw)[1]
+    ctx.check("fbg.axis", H1.shape == H2.shape == (n,) and np.max(np.abs(H2 - H1)) <= 1e-9 and np.max(np.abs(H1b - H1)) <= 1e-9,
+              f"H depends on the input: two-polarisation vs one-polarisation max dev {np.max(np.abs(H2 - H1)) if H1.shape == H2.shape else 'shape'}, other content {np.max(np.abs(H1b - H1)) if H1.shape == H1b.shape else 'shape'}")
+    if n % 2 == 0:
+        Hd = run_fbg(make_input(rng, 2 * n, int(rng.integers(1, 3))), **kw)[1]      # shifted axes: bin k of the short record is bin 2k of the long one
+        ctx.check("fbg.axis", Hd.shape == (2 * n,) and np.max(np.abs(np.abs(Hd[::2]) - np.abs(H1))) <= 2 * ODE,
+                  f"|H| on a record twice as long differs at the shared frequencies by {np.max(np.abs(np.abs(Hd[::2]) - np.abs(H1))) if Hd.shape == (2 * n,) else 'shape'}")
+    ctx.case(("axis", fs, n, apo, round(kL), F != 0), sample=dict(fs=fs, n=n, kL=kL, apodisation=apo) if i < 2 else None)
+
+
 def w_errors(ctx, rng, i):
     with core.quiet():
         T.gv(sps=8, fs=8e10)
@@ -219,6 +246,7 @@ WORKLOADS = [
     Workload("routes", w_routes, 40, 600, budget=300),
     Workload("errors", w_errors, 2, 8, budget=120),
     Workload("two_grids", w_two_grids, 24, 600, budget=300),
+    Workload("axis", w_axis, 40, 800, budget=300),
 ]
 
 
